@@ -8,6 +8,7 @@ import (
 	"strings"
 	"time"
 
+	"github.com/PowerDNS/lightningstream/lmdbenv/header"
 	"github.com/PowerDNS/lmdb-go/lmdb"
 
 	"verif/bucket"
@@ -113,6 +114,10 @@ type c11Params struct {
 	IntKeys int    `json:"intkeys"` // 0 none, 4, 8
 	Empty   bool   `json:"empty"`   // include empty application values (known-finding family)
 	NDBI    int    `json:"ndbi"`
+	// Proto: the steps follow the sync loop's transaction-id protocol instead of always forcing a capture: LoadOnce
+	// gets the id the loop would consider synced, SendOnce is called only when LMDB's last id is above it, and the
+	// returned ids are carried forward exactly as syncLoop does. A wrong id makes a capture be skipped.
+	Proto bool `json:"loop_protocol,omitempty"`
 }
 
 func C11() *runner.Property {
@@ -133,13 +138,16 @@ func C11() *runner.Property {
 			}
 			var cs []runner.Case
 			for i := 0; i < n; i++ {
-				p := c11Params{Seed: r.U64(), Steps: 5 + r.Intn(36), IntKeys: []int{0, 0, 4, 8}[i%4], NDBI: 1 + r.Intn(4), Empty: i%10 == 9}
+				p := c11Params{Seed: r.U64(), Steps: 5 + r.Intn(36), IntKeys: []int{0, 0, 4, 8}[i%4], NDBI: 1 + r.Intn(4), Empty: i%10 == 9, Proto: i%2 == 1 && i%10 != 9}
 				fam := "bytes"
 				if p.IntKeys > 0 {
 					fam = fmt.Sprintf("int%d", p.IntKeys)
 				}
 				if p.Empty {
 					fam += "-emptyvalues"
+				}
+				if p.Proto {
+					fam += "-loopprotocol"
 				}
 				cs = append(cs, runner.MkCase(fam, fmt.Sprint(i), p))
 			}
@@ -200,6 +208,7 @@ func runC11(c runner.Case, env *runner.Env) (res runner.Result) {
 	}
 	var trace []string
 	remoteTS := uint64(1000000000000000000) // 2001: older than every local stamp
+	var lastSynced header.TxnID             // loop-protocol mode: the id syncLoop would consider synced
 	steps := 0
 	for step := 0; step < p.Steps; step++ {
 		// ---- application change set
@@ -265,6 +274,7 @@ func runC11(c runner.Case, env *runner.Env) (res runner.Result) {
 		}
 		// ---- Lightning Stream step
 		beforeDump, _, _ := lmdbx.DumpEnv(x.Env)
+		_ = lastSynced
 		lastBefore := lmdbx.LastTxnID(x.Env)
 		kind := rng.Pick(r, "send", "load-empty", "load-remote", "load-remote")
 		var snap *wire.Snap
@@ -312,11 +322,41 @@ func runC11(c runner.Case, env *runner.Env) (res runner.Result) {
 		var serr error
 		switch kind {
 		case "send":
-			_, _, serr = x.Send(ctx)
-		case "load-empty":
-			_, _, serr = x.LoadSnap(ctx, inst.EmptySnap("db", "r"), "r", time.Now(), 0)
+			if p.Proto {
+				// syncLoop: a snapshot is made only when LMDB's last transaction id is above the synced one
+				if header.TxnID(lmdbx.LastTxnID(x.Env)) > lastSynced {
+					var id header.TxnID
+					_, id, serr = x.Send(ctx)
+					if serr == nil {
+						lastSynced = id
+					}
+					res.Count("protocol_sends", 1)
+				} else {
+					res.Count("protocol_sends_skipped_nothing_changed", 1)
+				}
+			} else {
+				_, _, serr = x.Send(ctx)
+			}
 		default:
-			_, _, serr = x.LoadSnap(ctx, snap, "r", time.Now(), 0)
+			ls := snap
+			if kind == "load-empty" {
+				ls = inst.EmptySnap("db", "r")
+			}
+			if p.Proto {
+				var id header.TxnID
+				var changed bool
+				id, changed, serr = x.LoadSnap(ctx, ls, "r", time.Now(), lastSynced)
+				if serr == nil && !changed {
+					lastSynced = id // syncLoop: no local change, the load's transaction counts as synced
+				}
+				if changed {
+					res.Count("protocol_loads_with_local_change", 1)
+				} else {
+					res.Count("protocol_loads_without_local_change", 1)
+				}
+			} else {
+				_, _, serr = x.LoadSnap(ctx, ls, "r", time.Now(), 0)
+			}
 		}
 		t1 := uint64(time.Now().UnixNano())
 		steps++
